@@ -4,8 +4,10 @@
  *   O = blast returned, P = perm_partialline, R = temp_read (a read failed), D = dropped() (a write failed), T = any other exit
  *   wire = concatenation of everything the socket took (also for P/R/D: what had been flushed before the exit),
  *   buffered = smtptobuf[0..smtpto.p) at that moment, nwrites = number of write() calls on the socket.
- * <plan> (one token) = <rplan>[/<wplan>]: how read() of the message file and write() to the socket behave. Each is a
- *   comma-separated list of caps used cyclically, one per call (0 = no cap, e = the call fails with EIO).
+ * <plan> (one token) = <rplan>[/<wplan>[/<ibuf>,<obuf>]]: how read() of the message file and write() to the socket behave. Each
+ *   plan is a comma-separated list of caps used cyclically, one per call (0 = no cap, e = the call fails with EIO).
+ *   <ibuf>,<obuf> (default 1024,1024 = the program's own) = how much of inbuf / smtptobuf the two substdio are given
+ *   (SUBSTDIO_FDBUF(op,fd,buf,len) with a smaller len: refills and flushes then happen every few bytes).
  *   A plain integer is the old <chunk> (read cap, unlimited writes).
  * ssin reads through a scripted read(); smtpto keeps the real `safewrite` (GEN_SAFE_TIMEOUTWRITE: failure -> dropped()),
  * timeoutwrite.o is replaced by the scripted socket. */
@@ -20,7 +22,7 @@
 static const unsigned char *in_p; static size_t in_n, in_pos;
 static hbuf outb, repb;
 #define MAXPLAN 64
-static int rplan[MAXPLAN], rplan_n, wplan[MAXPLAN], wplan_n; static long rplan_k, wplan_k, nwrites;
+static int rplan[MAXPLAN], rplan_n, wplan[MAXPLAN], wplan_n, ibuf_n, obuf_n; static long rplan_k, wplan_k, nwrites;
 
 static const char *parse_caps(const char *t, int *plan, int *n) {
   *n = 0;
@@ -34,11 +36,17 @@ static const char *parse_caps(const char *t, int *plan, int *n) {
   return *n > 0 ? t : 0;
 }
 static int parse_plan(const char *t) {
+  ibuf_n = sizeof inbuf; obuf_n = sizeof smtptobuf;
+  wplan[0] = 0; wplan_n = 1;
   t = parse_caps(t, rplan, &rplan_n);
   if (!t) return 0;
-  if (*t == '/') { t = parse_caps(t + 1, wplan, &wplan_n); return t && !*t; }
-  wplan[0] = 0; wplan_n = 1;
-  return 1;
+  if (*t == '/') { t = parse_caps(t + 1, wplan, &wplan_n); if (!t) return 0; }
+  if (*t == '/') {
+    if (sscanf(t + 1, "%d,%d", &ibuf_n, &obuf_n) != 2) return 0;
+    if (ibuf_n < 1 || ibuf_n > (int)sizeof inbuf || obuf_n < 1 || obuf_n > (int)sizeof smtptobuf) return 0;
+    return 1;
+  }
+  return !*t;
 }
 
 static ssize_t rd(int fd, char *buf, size_t len) {
@@ -64,8 +72,8 @@ static ssize_t wrrep(int fd, const char *buf, size_t len) { hbuf_add(&repb, buf,
 
 static void onep(const unsigned char *m, size_t n, const char *tok) {
   if (!parse_plan(tok)) return;
-  substdio tin = SUBSTDIO_FDBUF(rd, -1, inbuf, sizeof inbuf);
-  substdio tto = SUBSTDIO_FDBUF(safewrite, -1, smtptobuf, sizeof smtptobuf);
+  substdio tin = SUBSTDIO_FDBUF(rd, -1, inbuf, ibuf_n);
+  substdio tto = SUBSTDIO_FDBUF(safewrite, -1, smtptobuf, obuf_n);
   ssin = tin; smtpto = tto;
   subfdoutsmall->op = wrrep; subfdoutsmall->p = 0;
   in_p = m; in_n = n; in_pos = 0; rplan_k = wplan_k = nwrites = 0;
@@ -124,7 +132,8 @@ int main(int argc, char **argv) {
       uint64_t v = k; for (int i = 0; i < len; i++) { m[i] = alpha[v & 3]; v >>= 2; }
       /* full reads for every string; the other chunkings for strings of length <= maxlen-2 */
       one(m, len, 0);
-      if (len + 2 <= maxlen) { for (int c = 1; c < 4; c++) one(m, len, chunks[c]); onep(m, len, "2/1"); onep(m, len, "0/2,1"); }
+      if (len + 2 <= maxlen) { for (int c = 1; c < 4; c++) one(m, len, chunks[c]); onep(m, len, "2/1"); onep(m, len, "0/2,1");
+                               onep(m, len, "0/0/2,3"); onep(m, len, "0/1/3,2"); onep(m, len, "2/0/1,1"); }
       /* a failing read() after j one-byte reads (temp_read), a failing write() at the final flush / after one byte (dropped) */
       if (len + 4 <= maxlen) {
         for (int j = 0; j <= len; j++) { char t[64]; int o = 0; for (int q = 0; q < j; q++) o += snprintf(t + o, sizeof t - o, "1,"); snprintf(t + o, sizeof t - o, "e"); onep(m, len, t); }
@@ -145,13 +154,15 @@ int main(int argc, char **argv) {
     }
     uint32_t e = h_below(8);
     if (e >= 2) b[n++] = '\n'; else if (e == 1) b[n++] = '\r';
-    one(b, n, (int[]){0, 1, 7, 1024, 1500}[h_below(5)]);
+    if (h_below(2)) one(b, n, (int[]){0, 1, 7, 1024, 1500}[h_below(5)]);
+    else { char tok[64]; snprintf(tok, sizeof tok, "%d/%d/%d,%d", (int[]){0, 1, 7, 1024, 1500}[h_below(5)], (int[]){0, 0, 1, 3, 100}[h_below(5)],
+                                  (int[]){1024, 512, 64, 7, 2, 1}[h_below(6)], (int[]){1024, 61, 16, 5, 2, 1}[h_below(6)]); onep(b, n, tok); }
     free(b);
   }
   /* chunking sweep (theorems C06_chunking*): messages longer than inbuf/smtptobuf (1024), each under a fixed set of
    * read plans x write plans (1, 2, 1023, 1024, 1025, full, mixed), random short reads and short writes, a failing
    * read (temp_read) and a failing write (dropped) */
-  for (int r = 0; r < nrandom / 32 + 2; r++) {
+  for (int r = 0; r < nrandom / 64 + 2; r++) {
     if ((r % nshards) != shard) continue;
     size_t n = 1030 + h_below(r % 5 == 0 ? 4400 : 2400);
     unsigned char *b = malloc(n + 2);
@@ -199,7 +210,7 @@ int main(int argc, char **argv) {
           for (int j = 0; j < cut % 3; j++) b[100 + 7 * j] = '\n';
           uint64_t v = k; for (int i = 0; i < len; i++) { b[n++] = alpha[v & 3]; v >>= 2; }
           b[n++] = '\n';
-          onep(b, n, (cut & 1) ? "0/1024" : "0");
+          onep(b, n, cut % 3 == 0 ? "0" : cut % 3 == 1 ? "0/1024/1024,64" : "0/0/1024,61");
         }
       }
     }
